@@ -431,10 +431,18 @@ func (e *e6Interp) load(addr *Sym, t types.Type) *Sym {
 			return s
 		}
 	}
-	if addr.Op == "alloc" {
+	if addr.Op == "alloc" || rootIsAlloc(addr) {
 		return zeroSym(t)
 	}
 	return &Sym{Op: "load", Args: []*Sym{addr}, Type: t}
+}
+
+// rootIsAlloc: addr is a field (of a field ...) of a fresh local allocation.
+func rootIsAlloc(a *Sym) bool {
+	for a != nil && a.Op == "fieldaddr" {
+		a = a.Args[0]
+	}
+	return a != nil && a.Op == "alloc" && !strings.HasPrefix(a.Name, "makemap") && !strings.HasPrefix(a.Name, "makechan")
 }
 
 func fieldOfSym(whole *Sym, name string, obj types.Object, t types.Type) *Sym {
